@@ -10,7 +10,7 @@ CHECKS = {
         'Tied to the code on every run: random real decorator stacks around scripted publishers/subscribers, a private Prometheus registry gathered at quiescence, a real Router with '
         'AddPrometheusRouterMetrics 1-3 times, concurrent publishes, Delay values built over a second before they are stamped, a wrapped subscriber that drains inside its own Close against a busy consumer, delay constructors bracketed by clock readings; every snapshot compared with the model and judged by the proved acceptors.'),
   note=('Trusted: Coq kernel + vm_compute; Prometheus as a log of label tuples, context marks as booleans, watcher goroutines firing on the first settlement, RFC 3339 / Duration string round trips; '
-        'the Go harness and the two add-only export_verif.go files. Partial: the per-layer trail multiplicity on an object repeated inside one batch is compared with the code, not part of the proved acceptor. '
+        'the Go harness and the two add-only export_verif.go files. Every acceptor the check evaluates (pub_monitor_full incl. trail multiplicity on repeated objects, sub_monitor, mw_monitor, chain and Router tables, agree_within) is proved to accept every model run; label values are theorems. Outside the model: metrics/http.go, histogram values. '
         'Thorough tier adds a -race run (testing).'),
   technique='Coq proof (induction over stacks, batches, call and op sequences; per-object invariant; refutation witnesses by vm_compute) + differential correspondence check on the real decorators, registry and Router',
   design_ref='DESIGN.md section 7 C20'),
